@@ -118,7 +118,7 @@ func c18ConcState(c *Ctx, dcs []dialClosure) {
 		atomicFields := map[string]bool{}
 		for _, f := range fns {
 			eachInstr(f, func(i ssa.Instruction) {
-				if call, ok := i.(*ssa.Call); ok && strings.HasPrefix(callName(&call.Call), "sync/atomic.") && len(call.Call.Args) > 0 {
+				if call, ok := isAtomicCall(i); ok && len(call.Call.Args) > 0 {
 					if fa, ok := call.Call.Args[0].(*ssa.FieldAddr); ok {
 						atomicFields[fieldKeyOf(fa.X.Type(), fa.Field)] = true
 					}
@@ -364,12 +364,12 @@ func c18Rotation(c *Ctx, dcs []dialClosure) {
 		var ops []*ssa.Call
 		for _, f := range region(dc.fn) {
 			eachInstr(f, func(i ssa.Instruction) {
-				if call, ok := i.(*ssa.Call); ok && strings.HasPrefix(callName(&call.Call), "sync/atomic.") {
+				if call, ok := isAtomicCall(i); ok {
 					ops = append(ops, call)
 				}
 			})
 		}
-		ok := len(ops) == 1 && strings.HasPrefix(callName(&ops[0].Call), "sync/atomic.Add")
+		ok := len(ops) == 1 && atomicKind(&ops[0].Call) == "add"
 		why := fmt.Sprintf("%d atomic operations per mapped dial; a load/store pair is not an atomic increment (two workers get the same index): want exactly one atomic Add", len(ops))
 		if len(ops) == 0 {
 			why = "the round-robin counter is not advanced atomically"
